@@ -1,0 +1,10 @@
+//go:build verif
+
+package simplefixgo
+
+// VerifServe dispatches one inbound message synchronously through the
+// incoming handler pools, exactly as the Run loop does for each message.
+// Verification hook: compiled only with the "verif" build tag.
+func (h *DefaultHandler) VerifServe(msg []byte) error {
+	return h.serve(msg)
+}
